@@ -1,5 +1,6 @@
 #!/venv/bin/python
-"""pytrans4.py — fail-closed translator of hpfeeds/broker/auth/json.py (Authenticator.load, Authenticator.get_authkey)
+"""pytrans4.py — fail-closed translator of hpfeeds/broker/auth/json.py (Authenticator.load, Authenticator.get_authkey),
+hpfeeds/broker/auth/memory.py (Authenticator.get_authkey) and hpfeeds/broker/auth/multi.py (Authenticator.get_authkey)
 to Gallina (coq/StoreGen.v), in the layer of coq/PyStore.v.  coq/StoreGenEq.v proves the translated methods equal to
 Stores.load / Stores.json_get, the functions the C17/C18 theorems are about.
 
@@ -7,7 +8,9 @@ Fragment: `try: with open(self.path, ..) as fp: NAME = json.load(fp)  except Exc
 method's extra argument `parsed`); `if <cond>: ...; return`; `for a, b in X.items():`; `for a in (<string constants>):`;
 `self.db = NAME`; `NAME = self.db.get(x, None)`; `return None` / `return` / `return dict(secret=.., ident=.., pubchans=..,
 subchans=.., owner=..)`; conditions: `not isinstance(x, dict|list)`, `a not in x`, `not x`; expressions: names, string
-constants, `x[a]`.  logger.* calls are skipped.  Anything else aborts the translation (exit 2).
+constants, `x[a]`.  logger.* calls are skipped.  memory.py: `NAME = self.creds.get(x, None)`, `if not NAME: return`, `NAME = dict(NAME)`,
+`NAME['ident'] = x`, `return NAME`.  multi.py: `for m in self.stack: NAME = m.get_authkey(x); if NAME: return NAME`, `return None`.
+Anything else aborts the translation (exit 2).
 """
 import ast
 import os
@@ -211,6 +214,87 @@ class Fn:
         raise Unsupported(s, 'statement')
 
 
+def simple_method(path, cls_name, meth):
+    tree = ast.parse(open(os.path.join(REPO, path)).read())
+    cls = [s for s in tree.body if isinstance(s, ast.ClassDef) and s.name == cls_name]
+    if len(cls) != 1:
+        raise Unsupported(tree, 'class %s in %s' % (cls_name, path))
+    fds = [m for m in cls[0].body if isinstance(m, ast.FunctionDef) and m.name == meth]
+    if len(fds) != 1 or fds[0].decorator_list or len(fds[0].args.args) != 2 or fds[0].args.defaults:
+        raise Unsupported(cls[0], '%s.%s' % (cls_name, meth))
+    body = [x for x in fds[0].body if not (isinstance(x, ast.Expr) and isinstance(x.value, ast.Constant))]
+    return fds[0].args.args[1].arg, body
+
+
+def is_none_return(s):
+    return isinstance(s, ast.Return) and (s.value is None or (isinstance(s.value, ast.Constant) and s.value.value is None))
+
+
+def memory_get_authkey():
+    """memory.Authenticator.get_authkey over self.creds : list (bytes * option cred) (None = any falsy entry)"""
+    path = 'hpfeeds/broker/auth/memory.py'
+    ident, body = simple_method(path, 'Authenticator', 'get_authkey')
+    out = []
+    var = None
+    stage = 0
+    for s in body:
+        if (stage == 0 and isinstance(s, ast.Assign) and len(s.targets) == 1 and is_name(s.targets[0]) and isinstance(s.value, ast.Call)
+                and is_attr(s.value.func, 'get') and is_attr(s.value.func.value, 'creds') and is_name(s.value.func.value.value, 'self')
+                and len(s.value.args) == 2 and is_name(s.value.args[0], ident) and isinstance(s.value.args[1], ast.Constant)
+                and s.value.args[1].value is None and not s.value.keywords):
+            var = s.targets[0].id
+            stage = 1
+        elif (stage == 1 and isinstance(s, ast.If) and not s.orelse and isinstance(s.test, ast.UnaryOp) and isinstance(s.test.op, ast.Not)
+              and is_name(s.test.operand, var) and len(s.body) == 1 and is_none_return(s.body[0])):
+            stage = 2
+        elif (stage == 2 and isinstance(s, ast.Assign) and len(s.targets) == 1 and is_name(s.targets[0], var) and isinstance(s.value, ast.Call)
+              and is_name(s.value.func, 'dict') and len(s.value.args) == 1 and is_name(s.value.args[0], var) and not s.value.keywords):
+            stage = 3                   # a copy: the configured mapping itself is not handed out
+        elif (stage == 3 and isinstance(s, ast.Assign) and len(s.targets) == 1 and isinstance(s.targets[0], ast.Subscript)
+              and is_name(s.targets[0].value, var) and isinstance(s.targets[0].slice, ast.Constant) and s.targets[0].slice.value == 'ident'
+              and is_name(s.value, ident)):
+            stage = 4                   # the answer names the identity asked for (not part of the model's record)
+        elif stage == 4 and isinstance(s, ast.Return) and is_name(s.value, var):
+            stage = 5
+        else:
+            raise Unsupported(s, 'memory.get_authkey statement (stage %d)' % stage)
+    if stage != 5:
+        raise Unsupported(path, 'memory.get_authkey is incomplete')
+    return ('(* %s: Authenticator.get_authkey *)\n'
+            'Definition Memory_get_authkey (creds : list (bytes * option cred)) (%s : bytes) : option cred :=\n'
+            '  let %s := mem_dict_get creds %s in\n'
+            '  if negb (cred_truthy %s) then None else\n'
+            '  let %s := cred_copy %s in\n'
+            '  let %s := cred_set_ident %s %s in\n'
+            '  %s.' % (path, ident, var, ident, var, var, var, var, var, ident, var))
+
+
+def multi_get_authkey():
+    """multi.Authenticator.get_authkey over self.stack : list (bytes -> option cred)"""
+    path = 'hpfeeds/broker/auth/multi.py'
+    ident, body = simple_method(path, 'Authenticator', 'get_authkey')
+    ok = False
+    if len(body) == 2 and isinstance(body[0], ast.For) and is_none_return(body[1]):
+        fr = body[0]
+        if (is_name(fr.target) and is_attr(fr.iter, 'stack') and is_name(fr.iter.value, 'self') and not fr.orelse and len(fr.body) == 2):
+            a, i = fr.body
+            m = fr.target.id
+            if (isinstance(a, ast.Assign) and len(a.targets) == 1 and is_name(a.targets[0]) and isinstance(a.value, ast.Call)
+                    and is_attr(a.value.func, 'get_authkey') and is_name(a.value.func.value, m) and len(a.value.args) == 1
+                    and is_name(a.value.args[0], ident) and not a.value.keywords):
+                r = a.targets[0].id
+                if (isinstance(i, ast.If) and not i.orelse and is_name(i.test, r) and len(i.body) == 1 and isinstance(i.body[0], ast.Return)
+                        and is_name(i.body[0].value, r)):
+                    ok = True
+    if not ok:
+        raise Unsupported(path, 'multi.get_authkey shape')
+    return ('(* %s: Authenticator.get_authkey *)\n'
+            'Definition Multi_get_authkey (stack : list (bytes -> option cred)) (%s : bytes) : option cred :=\n'
+            '  match for_first stack (fun %s => let %s := %s %s in if cred_truthy %s then Some %s else None) with\n'
+            '  | Some t_r => t_r | None => None end.'
+            % (path, ident, m, r, m, ident, r, r))
+
+
 def main():
     try:
         tree = ast.parse(open(os.path.join(REPO, SRC)).read())
@@ -240,7 +324,8 @@ def main():
                 body = f.block(fd.body)
                 defs.append('(* %s: Authenticator.get_authkey *)\nDefinition Authenticator_get_authkey (%s : bytes) : SM (option cred) :=\n'
                             '  fnS None %s.' % (SRC, params[1], body))
-        # the constructor must start with an empty table
+        defs.append(memory_get_authkey())
+        defs.append(multi_get_authkey())
         txt = ('(* GENERATED by harness/pytrans4.py from %s - do not edit *)\n'
                'From Coq Require Import List Bool String.\nFrom Coq Require Import Strings.Byte.\n'
                'From HP Require Import Bytes Stores PyStore.\nImport ListNotations.\nOpen Scope string_scope.\n\n'
